@@ -24,7 +24,7 @@ PROPS = {
         "explanation": "per-operation contracts on the real steel-rc crate: each atomic step re-establishes the counting invariant I from any state satisfying it, under arbitrary interference",
     },
     "C10": {
-        "units": ["num"],
+        "units": ["num", "vm"],
         "trusted_base": COMMON_TB + [
             "units/num/prelude.rs: reduced SteelVal (same variant names/payloads), Gc as owning pointer, BigInt as exact i128 model (assumed contract of num-bigint), BigRational = real num_rational::Ratio over that model, error macros without message text",
             "Rust's `/` and `%` on isize are truncated division (division specs are stated relative to them)",
@@ -92,5 +92,29 @@ PROPS = {
             "free lists of at most 3 slots",
         ],
         "explanation": "reclamation side of the same free-list contracts",
+    },
+    "C09": {
+        "units": ["vm"],
+        "trusted_base": COMMON_TB + [
+            "units/vm/prelude.rs: VmCore/SteelThread with only the touched fields (field lists checked against the real structs every run), frame stack with a ghost count of older frames, reduced SteelVal/ByteCodeLambda, RootedInstructions as a raw slice pointer, message-less stop!",
+            "real steel-gen OpCode; u24/DenseInstruction/StackFrame/STACK_LIMIT extracted verbatim",
+        ],
+        "assumptions": [
+            "which call sites get the tail opcodes (analysis.rs / code_gen.rs), the JIT tier's own tail-call paths and heap-side memory are NOT covered",
+            "per-call frame reuse implies a constant frame stack by induction over iterations (paper step)",
+            "operand stacks of 5 values, arity <= 2 (Vec::drain under CBMC)",
+        ],
+        "explanation": "frame-reuse contract of the interpreter's tail-call handlers and the depth-limit check",
+    },
+    "C01": {
+        "units": ["vm"],
+        "trusted_base": COMMON_TB + [
+            "units/vm/prelude.rs: VmCore/SteelThread with only the touched fields (field lists checked against the real structs every run), frame stack with a ghost count of older frames, reduced SteelVal/ByteCodeLambda, RootedInstructions as a raw slice pointer, message-less stop!",
+            "real steel-gen OpCode; u24/DenseInstruction/StackFrame/STACK_LIMIT extracted verbatim",
+        ],
+        "assumptions": [
+            "only local encoding / stack-slot steps are decided: operand encoding (u24), call set-up (exactly the arguments written at the call site, rest-argument collection), local read / move / assign; the 15 AST passes, code generation, peephole rewrites and the interpreter match as a whole are NOT covered",
+        ],
+        "explanation": "call set-up and local-variable slot handlers of VmCore under contract",
     },
 }
